@@ -198,6 +198,7 @@ func init() {
 			c.OnRestart(mk("restart"))
 			c.OnRestartFailed(mk("restartfailed"))
 			c.OnShutdown(mk("shutdown"))
+			c.OnShutdown(mk("shutdownb")) // a second one: all of them run
 			c.OnFinalShutdown(mk("finalshutdown"))
 			// an event hook, as the 'on' directive registers them
 			hook := "observer-" + label
@@ -376,6 +377,10 @@ func (r *lcRig) callback(label, kind string) error {
 			r.c.Fault("startup-callback-fails")
 			return fmt.Errorf("injected startup failure")
 		}
+		if kind == "shutdown" && a.kind == rkShutdownCb && label == a.old {
+			r.c.Fault("shutdown-callback-fails")
+			return fmt.Errorf("injected shutdown callback failure")
+		}
 		if kind == "restart" && a.kind == rkRestartCb && label == a.old {
 			r.c.Fault("restart-callback-fails")
 			return fmt.Errorf("injected restart failure")
@@ -429,9 +434,12 @@ func runLifecycle(c *sim.Ctl) {
 	for i := 0; i < nops; i++ {
 		k := rkOK
 		if st.Draw(2) == 1 {
-			k = 1 + st.Draw(6)
+			k = 1 + st.Draw(7)
 			if k == 6 {
 				k = rkPanic
+			}
+			if k == 7 {
+				k = rkShutdownCb
 			}
 		}
 		opKinds = append(opKinds, k)
@@ -498,6 +506,12 @@ func runLifecycle(c *sim.Ctl) {
 			r.endAttempt(err == nil, fmt.Sprint(err))
 			if err == nil && ni != nil {
 				r.inst = ni
+			} else if err != nil && cfg.kind == rkShutdownCb {
+				// reported as failed although the new instance is the one running:
+				// carry on with that one (the old one has been stopped)
+				if is := casket.Instances(); len(is) > 0 {
+					r.inst = is[len(is)-1]
+				}
 			}
 		}
 		if withStopOp && !r.exited && !r.cleanup {
@@ -616,7 +630,8 @@ func (r *lcRig) pollSigReload() {
 			r.endAttempt(false, "restartfailed seen")
 			return
 		}
-		if e.kind == "cb:shutdown" && e.inst == a.old && e.arg != "by-signal" {
+		if e.kind == "cb:shutdownb" && e.inst == a.old && e.arg != "by-signal" {
+			// (the last of the old instance's shutdown callbacks)
 			r.endAttempt(true, "")
 			return
 		}
@@ -630,9 +645,14 @@ func (r *lcRig) endAttempt(ok bool, msg string) {
 	}
 	a.end = len(r.trace)
 	r.ev("reload-end", a.old, fmt.Sprintf("%s ok=%v", a.neu, ok))
-	if ok != (a.kind == rkOK) && r.shutSig < 0 {
-		if a.kind == rkOK {
-			r.c.Violate("C16/valid-reload-failed", "", "reload to valid config %s failed: %s", a.neu, msg)
+	if ok != okKind(a.kind) && r.shutSig < 0 {
+		if okKind(a.kind) {
+			sig := ""
+			if a.kind == rkShutdownCb {
+				sig = "shutdown-callback-of-the-replaced-instance-returned-an-error"
+				ok = true // the new instance is the running one, whatever was reported
+			}
+			r.c.Violate("C16/valid-reload-failed", sig, "reload to valid config %s failed: %s", a.neu, msg)
 		} else if a.kind == rkPanic {
 			r.c.Violate("C16/panicking-reload-reported-as-success", "", "reload %s->%s, whose configuration makes a directive's setup panic, was reported as successful", a.old, a.neu)
 			ok = false
@@ -822,13 +842,16 @@ func (r *lcRig) check() {
 		if complete && nRestart != 1 {
 			c.Violate("C16/restart-callback-missing", rkNames[a.kind], "reload %s->%s: restart callback of the old instance ran %d times", a.old, a.neu, nRestart)
 		}
-		if a.kind == rkOK {
+		if okKind(a.kind) {
 			if nFailed > 0 {
 				c.Violate("C16/restartfailed-on-success", "", "reload %s->%s succeeded but restart-failed callback ran", a.old, a.neu)
 			}
 			if complete {
 				if nShut != 1 {
 					c.Violate("C16/old-shutdown-count", "success", "successful reload %s->%s: old instance's shutdown callback ran %d times", a.old, a.neu, nShut)
+				}
+				if nb := count("cb:shutdownb", a.old, lo, hi); nb != 1 {
+					c.Violate("C16/old-shutdown-count", "success/second-callback", "successful reload %s->%s: the old instance's second shutdown callback ran %d times", a.old, a.neu, nb)
 				}
 				// order: restart(old) < startup(new) < serve-begin(new) < stop(old) < shutdown(old)
 				idx := func(kind, inst string) int {
@@ -981,12 +1004,16 @@ func (r *lcRig) inLineage(label string) bool {
 		return true
 	}
 	for _, a := range r.attempts {
-		if a.neu == label && a.kind == rkOK {
+		if a.neu == label && okKind(a.kind) {
 			return true
 		}
 	}
 	return false
 }
+
+// okKind: reloads to a valid configuration (a replaced instance's shutdown
+// callback reporting an error does not make the new configuration invalid).
+func okKind(k int) bool { return k == rkOK || k == rkShutdownCb }
 
 func (r *lcRig) liveAt(idx int) string {
 	live := ""
